@@ -214,6 +214,22 @@ func streamOps(o *Out, r *rand.Rand, n int, thorough bool) {
 			}
 		}
 	}
+	// == and != on two int64 operands are exact (never through float64): every ordered pair of the integer pool
+	for _, op := range eqOps {
+		for _, a := range vals.Ints {
+			for _, b := range vals.Ints {
+				for m := 0; m < modes; m++ {
+					t := &tnode{op: op, l: &tnode{val: a, wrapped: m == 1, literal: m == 2}, r: &tnode{val: b, wrapped: m == 1, literal: m == 2}}
+					out := emit(t, "int-pair-equality")
+					want := (a == b) == (op == "==")
+					if !out.panicked && (out.err != nil || !sameValue(want, out.val)) {
+						o.Fail(Failure{Oracle: "go-arithmetic", Key: "int-eq:" + op, Input: fmt.Sprintf("%v %s %v (mode %d)", a, op, b, m),
+							Detail: fmt.Sprintf("Go computes %v; interpreter gave %v (%T), err=%v", want, out.val, out.val, out.err)})
+					}
+				}
+			}
+		}
+	}
 	for _, op := range unOps {
 		for _, a := range vals.All() {
 			for m := 0; m < 3; m++ {
